@@ -38,18 +38,18 @@ func (v Violation) Signature() string { return v.Prop + "/" + v.Rule + "/" + v.S
 
 // Outcome is what one simulated run reports.
 type Outcome struct {
-	Spec       Spec
-	Violations []Violation
-	Probes     map[string]int
-	Faults     map[string]int
-	Steps      int
-	SimSeconds float64
-	Trace      []string // scheduler trace or actor-step log (used for distinctness and replay)
-	StepIDs    []int    // for step worlds: ids of the steps that ran
-	Nontrivial bool     // the run exercised the property's own probe at least once
-	Sample     any
-	Infra      string // non-empty: infrastructure trouble (never reported as a violation)
-	Log        []string
+	Spec         Spec
+	Violations   []Violation
+	Probes       map[string]int
+	Faults       map[string]int
+	Steps        int
+	SimSeconds   float64
+	Trace        []string // scheduler trace or actor-step log (used for distinctness and replay)
+	StepIDs      []int    // for step worlds: ids of the steps that ran
+	Nontrivial   bool     // the run exercised the property's own probe at least once
+	Sample       any
+	Infra        string // non-empty: infrastructure trouble (never reported as a violation)
+	Log          []string
 	DistinctKeys []string // keys of the distinct non-trivial cases this run covered (hashed by the batch)
 }
 
@@ -57,9 +57,9 @@ func NewOutcome(spec Spec) *Outcome {
 	return &Outcome{Spec: spec, Probes: map[string]int{}, Faults: map[string]int{}}
 }
 
-func (o *Outcome) Probe(name string)        { o.Probes[name]++ }
+func (o *Outcome) Probe(name string)         { o.Probes[name]++ }
 func (o *Outcome) ProbeN(name string, n int) { o.Probes[name] += n }
-func (o *Outcome) Fault(name string)        { o.Faults[name]++ }
+func (o *Outcome) Fault(name string)         { o.Faults[name]++ }
 func (o *Outcome) Logf(format string, a ...any) {
 	o.Log = append(o.Log, fmt.Sprintf(format, a...))
 }
@@ -107,27 +107,27 @@ func WriteJSON(path string, v any) error {
 
 // Summary is what one worker process reports to the driver.
 type Summary struct {
-	Prop        string            `json:"prop"`
-	Tier        string            `json:"tier"`
-	BaseSeed    uint64            `json:"base_seed"`
-	Worker      int               `json:"worker"`
-	Runs        int               `json:"runs"`
-	FaultFree   int               `json:"fault_free_runs"`
-	Faulting    int               `json:"faulting_runs"`
-	Nontrivial  int               `json:"nontrivial_runs"`
-	Steps       int               `json:"steps"`
-	SimSeconds  float64           `json:"sim_seconds"`
-	WallSeconds float64           `json:"wall_seconds"`
-	Probes      map[string]int    `json:"probes"`
-	Faults      map[string]int    `json:"faults"`
-	Distinct    []string          `json:"distinct"` // hashes of distinct non-trivial cases
-	Hashes      []string          `json:"trace_hashes"`
-	Samples     []any             `json:"samples"`
+	Prop        string              `json:"prop"`
+	Tier        string              `json:"tier"`
+	BaseSeed    uint64              `json:"base_seed"`
+	Worker      int                 `json:"worker"`
+	Runs        int                 `json:"runs"`
+	FaultFree   int                 `json:"fault_free_runs"`
+	Faulting    int                 `json:"faulting_runs"`
+	Nontrivial  int                 `json:"nontrivial_runs"`
+	Steps       int                 `json:"steps"`
+	SimSeconds  float64             `json:"sim_seconds"`
+	WallSeconds float64             `json:"wall_seconds"`
+	Probes      map[string]int      `json:"probes"`
+	Faults      map[string]int      `json:"faults"`
+	Distinct    []string            `json:"distinct"` // hashes of distinct non-trivial cases
+	Hashes      []string            `json:"trace_hashes"`
+	Samples     []any               `json:"samples"`
 	Violations  []ReportedViolation `json:"violations"`
-	Infra       []string          `json:"infra"`
-	Exhaustive  bool              `json:"exhaustive"`
-	Seeds       []uint64          `json:"seeds_first_last"`
-	Extra       map[string]any    `json:"extra,omitempty"`
+	Infra       []string            `json:"infra"`
+	Exhaustive  bool                `json:"exhaustive"`
+	Seeds       []uint64            `json:"seeds_first_last"`
+	Extra       map[string]any      `json:"extra,omitempty"`
 }
 
 type ReportedViolation struct {
